@@ -27,7 +27,7 @@ def fail(what, sig):
 
 
 def gen_case(rng, cid, features):
-    """`features`: list out of 'rate', 'qlimit', 'reflect'"""
+    """`features`: list out of 'rate', 'qlimit', 'out', 'reflect'"""
     rate = rng.choice([8.0, 8.0, 64.0, 100.0, 8, 1e6])
     sizes = [1, 2, 3, 5, 10] if rate in (8.0, 8) else [10, 50, 60, 100, 200, 1500]
     mode = rng.choice(['bytes', 'bytes', 'bytes', 'packets', 'none'])
@@ -64,6 +64,9 @@ def gen_case(rng, cid, features):
             q = c['qlimit']
             new = max(0, q + rng.choice([-2, -1, 1, 2]) * (unit if mode == 'bytes' else 1)) if rng.random() < 0.8 else rng.choice([q * 2, q // 2])
             c['reconf'].append({'at': instant(), 'attr': 'qlimit', 'value': new})
+    if 'out' in use:
+        for k in range(rng.choice([1, 1, 2])):
+            c['reconf'].append({'at': instant(), 'attr': 'out', 'value': k + 1})
     c['reconf'].sort(key=lambda r: r['at'])
     c['down'] = None
     if 'reflect' in use:
@@ -108,11 +111,15 @@ class PortRun:
                 run.acc.append((env.now, rec))
 
         class Down:
+            def __init__(self, k):
+                self.k = k             # which of the devices `out` was pointed at in turn
+
             def put(self, p):
                 rec = run.inside.pop(id(p), None)
                 if rec is None:
                     run.bad.append((env.now, p.packet_id))
                     return
+                rec['out'] = self.k
                 run.held -= rec['size']; run.nheld -= 1
                 run.last_dep_size = rec['size']
                 run.deps.append((env.now, rec))
@@ -134,7 +141,8 @@ class PortRun:
                         run.depth -= 1
 
         self.last_dep_size = 0
-        port.put, port.out = put, Down()
+        self.downs = [Down(k) for k in range(1 + sum(1 for r in c.get('reconf') or [] if r['attr'] == 'out'))]
+        port.put, port.out = put, self.downs[0]
 
         def source(script):
             for d, burst in script:
@@ -148,7 +156,7 @@ class PortRun:
             for r in c.get('reconf') or []:
                 yield env.timeout(r['at'] - t0)
                 t0 = r['at']
-                setattr(port, r['attr'], r['value'])
+                setattr(port, r['attr'], run.downs[r['value']] if r['attr'] == 'out' else r['value'])
                 run.stats['changes applied: ' + r['attr']] += 1
 
         for script in c['sources']:
@@ -168,7 +176,7 @@ class PortRun:
 
     def in_force(self, attr, t):
         c = self.c
-        val = (c['rate'] if attr == 'rate' else (None if c['mode'] == 'none' else c['qlimit']), 0.0)
+        val = (c['rate'] if attr == 'rate' else 0 if attr == 'out' else (None if c['mode'] == 'none' else c['qlimit']), 0.0)
         for r in c.get('reconf') or []:
             if r['attr'] != attr:
                 continue
@@ -182,7 +190,7 @@ class PortRun:
         c = self.c
         out = [f'Port rate {c["rate"]:g}, ' + ('no limit' if c['mode'] == 'none' else f'qlimit {c["qlimit"]} {c["mode"]}')]
         if c.get('reconf'):
-            out.append('changes while running: ' + '; '.join(f't={r["at"]:g} {r["attr"]} = {r["value"]:g}' for r in c['reconf']))
+            out.append('changes while running: ' + '; '.join(f't={r["at"]:g} {r["attr"]} ' + (f'-> device #{r["value"]}' if r['attr'] == 'out' else f'= {r["value"]:g}') for r in c['reconf']))
         d = c.get('down')
         if d:
             what = {'same': 'the packet it was handed', 'fresh-same-size': 'a fresh packet of the same size', 'fresh-other': f'a fresh packet of {d["other"]} bytes'}[d['what']]
@@ -210,6 +218,15 @@ def o_conserve(run):
     if p.packets_received != len(run.puts) or p.packets_dropped != sum(1 for r in run.puts if r['refused']):
         fails.append(fail(f'port: packets_received = {p.packets_received}, packets_dropped = {p.packets_dropped} after {len(run.puts)} puts of which '
                           f'{sum(1 for r in run.puts if r["refused"])} were refused ({run.describe()})', 'dyn-port-counters'))
+    for t, e in run.deps:          # "forwarded downstream": to the device `out` names at the instant of the hand-over
+        o = run.in_force('out', t)
+        if o is not None:
+            if o[1] > 0:
+                run.stats['departures after `out` was re-pointed'] += 1
+            if e.get('out') != o[0]:
+                fails.append(fail(f'port: packet {e["id"]} was handed on at t={t} to device #{e.get("out")}; `out` names device #{o[0]}'
+                                  f'{" since t=%g (re-pointed while the port was running)" % o[1] if o[1] > 0 else ""} ({run.describe()})', 'dyn-wrong-next-hop'))
+                break
     return fails + o_rule(run)
 
 
